@@ -125,6 +125,8 @@ def _gens(case):
 
 
 def _newest_queue(obs):
+  if obs.get('nqueues') is not None:
+    return obs['nqueues'] - 1 if obs['nqueues'] else None
   ks = [int(l.rsplit('#', 1)[1]) for _, l in obs['trace'] if '#' in l]
   return max(ks) if ks else None
 
@@ -358,9 +360,58 @@ def _e2e_guarded(args, timeout=30):
   return box['r']
 
 
+def _explore_stage(ctx):
+  """exhaustive exploration of the Lean LTS (ALL schedules) for small configurations: every configuration in
+  which no thread is enabled is handed to the same oracle as a real run (so a model-level deadlock, a lost
+  element or a wrong marker is reported with its schedule, which is a replayable case for the real code), and
+  no reachable configuration may have a prefetch thread of a replaced generator that is still feeding."""
+  rng = ctx.rng
+  one = [(n, f, p, b) for n in range(0, 4) for f in [None] + list(range(n + 1)) for p in (1, 2) for b in (1, 2, 3)]
+  rng.shuffle(one)
+  cases = [dict(prefetch=p, threads=[dict(kind='client', src=gen_src(0, n, f), ret=900, batch=b)])
+           for n, f, p, b in one[:24 if ctx.quick else len(one)]]
+  multi = [
+      [dict(kind='client', src=[0], ret=900, batch=1), dict(kind='init', src=[100], ret=901)],
+      [dict(kind='client', src=[0, 1], ret=900, batch=2), dict(kind='shutdown')],
+      [dict(kind='client', src=[0, 'fail'], ret=900, batch=2), dict(kind='stop', fatal=False)],
+      [dict(kind='client', src=[0, 1], ret=900, batch=1), dict(kind='next', batch=1)],
+      [dict(kind='init', src=[0], ret=900), dict(kind='init', src=[100], ret=901), dict(kind='next', batch=1)],
+      [dict(kind='init', src=[0, 1], ret=900), dict(kind='shutdown'), dict(kind='next', batch=2)],
+  ]
+  rng.shuffle(multi)
+  for ths in multi[:2 if ctx.quick else len(multi)]:
+    cases.append(dict(prefetch=rng.choice([1, 2]), threads=ths))
+  reqs = [dict(model='prefetch', op='explore', prefetch=c['prefetch'], threads=c['threads'], schedule=[],
+               limit=1500000 if ctx.quick else 6000000) for c in cases]
+  resps = ctx.lean.ask_many(reqs)
+  states = 0
+  for c, r in zip(cases, resps):
+    if 'driver_error' in r:
+      ctx.extra_disagreements.append(('explore', c, str(r)))
+      continue
+    states += r['states']
+    ctx.count('explore', 'configurations')
+    ctx.count('explore', 'states', r['states'])
+    ctx.count('explore', 'quiescent observations', len(r['quiescent']))
+    if not r['complete']:
+      ctx.count('explore', 'incomplete (state limit)')
+    for sch in r['bad_old']:
+      ctx.extra_oracle_failures.append((dict(c, sched=dict(kind='replay', choices=sch)),
+                                        'model: a prefetch thread of a replaced generator is still feeding its queue'))
+    for q in r['quiescent']:
+      obs = dict(outcome='done', trace=[], choices=q['schedule'], nqueues=q['nqueues'], left=q['left'],
+                 threads=q['threads'], producers=q['producers'], main_done=q['main_done'])
+      w = oracle(c, obs)
+      if w is not None:
+        ctx.extra_oracle_failures.append((dict(c, sched=dict(kind='replay', choices=q['schedule'])), 'model: ' + w))
+  ctx.extra_evals += len(cases)
+  ctx.notes.append(f'exhaustive model exploration: {len(cases)} configurations, {states} states')
+
+
 def extra(ctx):
   import logging
   import threading
+  _explore_stage(ctx)
   logging.disable(logging.CRITICAL)
   hook = threading.excepthook
   threading.excepthook = lambda args: None   # the failing generators' prefetch threads end with their exception
